@@ -56,8 +56,17 @@ def _run_once(case, fault):
     cfg, meta = _c01.build_case(ccase)
     cfg["time"]["output_step_sec"] = case["out"]
     cfg["propagation"]["truth_simulation_only"] = not case["estimation"]
+    if case.get("mdet"):
+        # maneuver detection + stored filter steps: rows of detected_maneuvers / filter-step tables must also be consistent
+        sf = cfg["estimation"]["sequential_filter"]
+        sf["maneuver_detection"] = {"name": "standard_nis", "threshold": 0.5, "parameters": {}}
+        sf["save_filter_steps"] = True
+        for e in cfg["events"]:
+            if e["event_type"] == "impulse":
+                e["thrust_vector"] = [0.0, 0.0, 0.05]
     tmeta = [dict(m, t0=m["real_t0"], t1=m["real_t1"]) for m in meta]
-    env = tracer.TableEnv(_r.Random(case["seed"]), serendipity=case["seed"] % 2 == 0)
+    env = tracer.TableEnv(_r.Random(case["seed"]), serendipity=case["seed"] % 2 == 0,
+                          **({"p_vis": 1.0, "p_slew": 1.0, "p_hit": 1.0} if case.get("mdet") else {}))
     np.random.seed(case["seed"] % (2 ** 31))
     tmpdir = tempfile.mkdtemp(prefix="verif_c09_")
     dbfile = os.path.join(tmpdir, "out.sqlite3")
@@ -177,6 +186,9 @@ def make_cases(ctx: Ctx, rng):
                    [{"kind": "removeSensor", "t0": (j - 1) * step + 1, "index": 1}, {"kind": "addTarget", "t0": (j + 1) * step}],
                    [{"kind": "addSensor", "t0": j * step}]][(pi + si) % 4]
             add(start=start, step=step, out=out, span=span, split=split, estimation=True, events=evs)
+            if si == 0:
+                add(start=start, step=step, out=out, span=span, split=split, estimation=True, mdet=True,
+                    events=[{"kind": "impulse", "t0": step, "planned": False}])
             # failing commit at each output step of the run (quick: one of them)
             n_out = len([k for k in range(1, span + 1) if (k * step) % out == 0])
             fails = range(1, n_out + 1) if not ctx.quick else ([1 + (pi + si) % n_out] if n_out else [])
@@ -272,6 +284,15 @@ def run(ctx: Ctx):
     ctx.extra["groups"] = len(groups)
     ctx.extra["traces_rejected"] = rejected
     ctx.extra["commit_failures_injected"] = n_fail
+    mrows = frows = 0
+    for rs, _v in out:
+        for r in rs:
+            for e in r["events"]:
+                if e["ev"] == "SaveOutput":
+                    mrows = max(mrows, e["rows"].get("n_maneuver_rows", 0))
+                    frows = max(frows, e["rows"].get("n_filterstep_rows", 0))
+    ctx.extra["max_detected_maneuver_rows_seen"] = mrows
+    ctx.extra["max_filterstep_rows_seen"] = frows
     if n_fail == 0:
         raise tlc.MachineryError("no injected commit failure was observed (fault injection not effective)")
 
